@@ -73,6 +73,17 @@ package lease_set
 //@   assert(o == a.Date() || o == b.Date() || o == c.Date())
 //@ }
 
+// C08: nothing an accepted LeaseSet holds points into the caller's buffer
+// (the leases are arrays, i.e. copies by construction).
+//@ lemma C08_LeaseSetNoAlias(data []byte) {
+//@   ls, err := ReadLeaseSet(data)
+//@   if err == nil {
+//@     assert(fresh(sig.SigData(ls.signature)))
+//@     assert(ls.encryptionKey != nil && fresh(ls.encryptionKey.Bytes()))
+//@     assert(ls.signingKey != nil && fresh(ls.signingKey.Bytes()))
+//@   }
+//@ }
+
 // C01: re-serialising an accepted LeaseSet reproduces the bytes it was parsed
 // from (ReadLeaseSet returns no remainder: it consumes up to the end of the
 // signature and ignores what follows).
